@@ -93,7 +93,8 @@ Exact(r) ==
             THEN (* narrowed to the canonically forced token: it must be allowed and forced *)
                  /\ M \subseteq ExactMask(c, st)
                  /\ \A t \in M : Forced(st, TokBytes(c, t))
-            ELSE M \cap txt = ExactMask(c, st)
+            ELSE /\ M \cap txt = ExactMask(c, st)
+                 /\ M \subseteq txt     \* a text grammar never allows a special token or the bare marker (C19)
       [] r.ev \in {"Mask", "MaskOrEos"} /\ r.ok = 0 /\ ~Stopped(r.e) /\ r.cls = "empty" ->
             (* the vocabulary has no token for any viable continuation *)
             ExactMask(c, st) = {}
@@ -106,9 +107,13 @@ Exact(r) ==
             /\ (r.ok = 1) = Allowed(c, st, r.t)
             /\ r.ok = 1 /\ r.t # s.eos =>
                  LET st2 == DS(st, TokBytes(c, r.t)) IN
-                 (r.st = "NoExtension") = (Nullable(st2) /\ ~CanExtend(st2))
+                 (* a stop is only reported where the text is complete and cannot be extended; the  *)
+                 (* converse is not asserted: with intersections the engine may notice only at the  *)
+                 (* next mask (which is then {EOS}) that no extension exists                         *)
+                 (r.st = "NoExtension") => (Nullable(st2) /\ ~CanExtend(st2))
       [] r.ev = "Validate" /\ r.ok = 1 /\ ~Stopped(r.e) -> r.n = ValidLen(c, st, r.seq, FALSE)
-      [] r.ev = "TryConsume" /\ r.ok = 1 /\ ~Stopped(r.e) -> r.n = ValidLen(c, st, r.seq, TRUE)
+      [] r.ev = "TryConsume" /\ r.ok = 1 /\ ~Stopped(r.e) ->
+            r.n = ValidLen(c, st, r.seq, TRUE) \/ r.n = ValidLen(c, st, r.seq, FALSE)
       [] r.ev = "FFBytes" -> Forced(st, r.b)
       [] OTHER -> TRUE
 
